@@ -119,6 +119,18 @@ let () =
       | Some c, _ -> specfail id ("branch_element_" ^ e1 ^ ":" ^ c)
       | _, Some c -> specfail id ("branch_element_" ^ e2 ^ ":" ^ c)
       | None, None -> ok id (if f.(6) = "ok" then "+accept" else "deny"));
+  (* partial_cell id <element> <attr> <static prefix> <accepted|refused> <output>: a static prefix before
+     the action in an attribute whose REVIEWED class is enumerated must make the analysis refuse *)
+  reg "partial_cell" (fun f ->
+      let id = f.(1) in
+      let e = bytes_of_hex f.(2) and a = bytes_of_hex f.(3) in
+      let enum_class n = let s = string_of_bytes n in
+        let l = String.length s in l >= 4 && String.sub s (l - 4) 4 = "Enum" in
+      match V.reviewed_attr e a [] with
+      | Some n when enum_class n ->
+        if f.(5) = "accepted" then specfail id ("partial_value_accepted_in_enumerated_context:" ^ string_of_bytes n)
+        else ok id "+partial_refused_in_enumerated_context"
+      | _ -> ok id (if f.(5) = "accepted" then "+partial_accepted_outside_enumerations" else "refused"));
   (* sc_attr04 id <element> <attr> <rel> <context name chosen by the engine, empty = refused> *)
   reg "sc_attr04" (fun f ->
       let id = f.(1) in
